@@ -1,6 +1,21 @@
 package dissect
 
-import "unicode"
+// lowerByte folds ASCII upper-case letters; every other byte (including the
+// bytes of multi-byte UTF-8 sequences) is left alone
+func lowerByte(b byte) byte {
+	if 'A' <= b && b <= 'Z' {
+		return b + ('a' - 'A')
+	}
+	return b
+}
+
+func lowerASCII(s string) string {
+	buf := []byte(s)
+	for i := range buf {
+		buf[i] = lowerByte(buf[i])
+	}
+	return string(buf)
+}
 
 // Finds case-insensitive index of second string
 // ASSUMES second string is already lowered (optimization)
@@ -13,7 +28,7 @@ func indexIgnoreCase(s, loweredSubstr string) int {
 		return -1
 	case len(s) == n:
 		for i := 0; i < n; i++ {
-			if unicode.ToLower(rune(s[i])) != rune(loweredSubstr[i]) {
+			if lowerByte(s[i]) != loweredSubstr[i] {
 				return -1
 			}
 		}
@@ -22,7 +37,7 @@ func indexIgnoreCase(s, loweredSubstr string) int {
 		for i := 0; i <= len(s)-n; i++ {
 			match := true
 			for j := 0; j < n; j++ {
-				if unicode.ToLower(rune(s[i+j])) != rune(loweredSubstr[j]) {
+				if lowerByte(s[i+j]) != loweredSubstr[j] {
 					match = false
 					break
 				}
